@@ -506,7 +506,7 @@ func c10(c *rig.Ctx) {
 	S := func(q, t int) int { return c.Pick(q, t) }
 
 	// 1. table-file store: both table files and the manifest exhaustively
-	f1 := must(c10FixtureTables("tables-small", mk("tables-small"), r, 9, 4, 24))
+	f1 := must(c10FixtureTables("tables-small", mk("tables-small"), r, 7, 3, 20))
 	plans = append(plans, tgtPlan{f1, anyFile, c10Plan{exhaustive: true, fieldInst: 3}})
 	// 2. larger table file (sampled)
 	f2 := must(c10FixtureTables("tables-large", mk("tables-large"), r, 260, 0, 90))
@@ -520,7 +520,7 @@ func c10(c *rig.Ctx) {
 		return strings.Contains(rg, "chunk-span") || strings.Contains(rg, "footer-checksums")
 	}}})
 	// 5. archive with a dictionary span and zstd chunks
-	f5 := must(c10FixtureArchive("archive-dict", mk("archive-dict"), r, 9, true, false, 40))
+	f5 := must(c10FixtureArchive("archive-dict", mk("archive-dict"), r, 6, true, false, 32))
 	sz5 := 0
 	for _, t := range f5.Targets {
 		if t.Kind == "archive" {
@@ -533,7 +533,7 @@ func c10(c *rig.Ctx) {
 		plans = append(plans, tgtPlan{f5, kindIs("archive"), c10Plan{singles: S(150, 3000), bursts: S(80, 2000), truncs: S(80, 1000), fieldInst: 0}})
 	}
 	// 6. chunk journal: 4 commits; journal file, manifest and index file
-	f6 := must(c10FixtureJournal("journal-small", mk("journal-small"), r, []int{4, 3, 4, 3}, 24))
+	f6 := must(c10FixtureJournal("journal-small", mk("journal-small"), r, []int{3, 2, 3, 2}, 16))
 	plans = append(plans, tgtPlan{f6, func(t c10Target) bool { return t.Kind == "journal" || t.Kind == "manifest" }, c10Plan{exhaustive: true, fieldInst: 3}})
 	plans = append(plans, tgtPlan{f6, kindIs("journalidx"), c10Plan{singles: S(25, 200), bursts: S(10, 100), truncs: S(20, 200), fieldInst: S(4, 30)}})
 	// 7. journal large enough for the writer to flush index metadata: reopen is served from journal.idx
@@ -656,8 +656,13 @@ func c10(c *rig.Ctx) {
 	}
 	viols := map[string]*agg{}
 	var order []string
+	lastCounted := map[string]int{}
 	report := func(cs *c10Case, outcome, path, detail string, extra map[string]any) {
 		key := fmt.Sprintf("c10/%s/%s/%s", cs.Kind, cs.Region, outcome)
+		if id, ok := lastCounted[key]; ok && id == cs.ID {
+			return // count cases, not read paths
+		}
+		lastCounted[key] = cs.ID
 		a := viols[key]
 		if a == nil {
 			a = &agg{}
